@@ -166,6 +166,8 @@ impl<'a, D> Bfs<'a, D> {
         let visited_ptr = visited.as_mut_ptr();
 
         for u in sources {
+            assert!(u < order, "u = {u} isn't in the digraph");
+
             queue.push_back(u);
 
             unsafe {
@@ -192,6 +194,11 @@ where
         let visited_ptr = self.visited.as_mut_ptr();
 
         for v in self.digraph.out_neighbors(u) {
+            assert!(
+                v < self.visited.len(),
+                "v = {v} isn't in the digraph"
+            );
+
             let visited_v = unsafe { visited_ptr.add(v) };
 
             unsafe {
